@@ -124,7 +124,7 @@ def main(tier):
         cfgs = [(4, 8, 0, (0,)), (4, 12, 5, (1, 0)), (3, 12, 4, (0, 2)), (4, 9, 5, (0, 1)), (3, 11, 3, (2, 0, 1)), (5, 16, 5, (1, 2)), (4, 11, 5, (1,)), (3, 12, 4, (2,))]      # incl. one bunch in a bucket other than 0
     else:
         cfgs = [(4, N, 5, b) for N in (8, 9, 10, 11, 12, 16) for b in ((0,), (1,), (0, 1), (1, 0)) if max(b) * 5 + 4 <= N]
-        cfgs += [(3, 12, 4, (0, 2)), (3, 11, 3, (2, 0, 1)), (3, 12, 3, (0, 1, 3)), (5, 16, 5, (1, 2)), (5, 20, 6, (0, 2)), (5, 17, 6, (2, 0)), (6, 24, 6, (3, 1))]
+        cfgs += [(3, 12, 4, (0, 2)), (3, 11, 3, (2, 0, 1)), (3, 12, 3, (0, 1, 3)), (5, 16, 5, (1, 2)), (5, 20, 6, (0, 2)), (5, 17, 6, (2, 0)), (6, 24, 6, (3, 1)), (6, 32, 7, (0, 2)), (8, 50, 9, (1, 0)), (4, 64, 5, (3, 1)), (6, 40, 7, (2, 0, 4))]
     import c18
     jobs = [(job_structure, c) for c in cfgs] + [(job_scaling, c) for c in cfgs[:3]]
     # the structure above is that of a call on a fresh object; that a later call computes the same (also where FFTW's c2r plan uses its input as scratch space, N = 24, and for an impedance table ending below the top frequency) is the history obligation
